@@ -427,7 +427,7 @@ func (g *Global) callsWithObligations(fn *ssa.Function) bool {
 			cc := ci.Common()
 			var con *FuncContract
 			if cc.IsInvoke() {
-				con = g.cs.Funcs[ifaceMethodKey(cc.Value.Type(), cc.Method)]
+				_, con = g.ifaceContract(cc.Value.Type(), cc.Method)
 			} else {
 				var f *ssa.Function
 				switch v := cc.Value.(type) {
